@@ -65,6 +65,10 @@ func c02Check(run *verifkit.Run, h *E1History, e *E1, f *E1Final, midViolations 
 			c02Witness{Config: h.Cfg.describe(), Buffered: f.BufferLeft[:min(len(f.BufferLeft), 5)], Ops: e.Ops()})
 	}
 	fpBudget := f.DropFilterExcess()
+	if f.PhantomDecisions() != 0 {
+		// decisions were recorded without being applied: surplus "dropped" answers are not false positives
+		fpBudget = 0
+	}
 	var noEvidence []*E1TraceObs
 	defer func() {
 		if len(noEvidence) == 0 {
